@@ -37,71 +37,51 @@ example : finOrders (GcRuntime.run [.prim (.mark a true true), .prim (.fire a), 
 
 /-! ### finalize_exactly_once_by_close -/
 
-/-- FALSE of the current code: "every marked value is finalised exactly once by the time the
-runtime is closed".  Witness: mark `a` for finalisation; Go's collector runs its Go finaliser
-(`goFinalizer` queues it in `pendingFinalize` and flags it `wrFinalized`); the runtime is closed
-before the next `runPendingFinalizers`: `ExtractAllMarkedFinalize` discards `pendingFinalize` and
-skips flagged entries, so `a`'s `__gc` never runs (the trace records it as `dropped`). -/
-theorem finalize_exactly_once_by_close_counterexample :
-    finOrders (GcRuntime.run [.prim (.mark a true false), .prim (.fire a), .close]).log = [] ∧
-    droppedOrders (ClonePool.run [.mark a true false, .fire a, .finAll, .popRel]).tr = [1] := by decide
-
-/-- the same at the end of an isolating CallContext that returns normally -/
-theorem finalize_exactly_once_by_context_end_counterexample :
-    finOrders (GcRuntime.run [.prim .push, .prim (.mark a true false), .prim (.fire a), .callDone, .close]).log = [] := by
-  decide
-
-/-- The strongest true statement.  In every pool of every reachable runtime state, for every
-register entry (= current marking of a value) whose epoch asked for finalisation: once the close-time
-`finAll` has run, the epoch has been handed to its finaliser, or it is one of the epochs thrown away
-by `ExtractAllMarkedFinalize` (`dropped`: its Go finaliser had fired and `runPendingFinalizers` had not
-run since), or it was skipped on purpose by a popped context.
-MISSING for the full property: the `dropped` case is a lost `__gc` call (see the counterexample). -/
-theorem finalize_exactly_once_by_close_partial (es : List REv) :
+/-- In every pool of every reachable runtime state, every current marking (register entry) whose epoch
+asked for finalisation has, once the close-time `finAll` (`runFinalizers(ExtractAllMarkedFinalize())`:
+Runtime.Close, end of an isolating CallContext) has run, been handed to its finaliser EXACTLY once —
+whether its Go finaliser had already fired (it then sits in `pendingFinalize`, which
+`ExtractAllMarkedFinalize` starts from) or not, and whatever happened before. -/
+theorem finalize_exactly_once_by_close (es : List REv) :
     ∀ p ∈ (GcRuntime.run es).pools, p.fatal = false → ∀ e ∈ regL p, wantsFin p.tr e.order = true →
-      e.order ∈ finOrders (ClonePool.use p .finAll).tr ∨
-      e.order ∈ droppedOrders (ClonePool.use p .finAll).tr ∨
-      e.order ∈ skipOrders (ClonePool.use p .finAll).tr := by
+      (finOrders (ClonePool.use p .finAll).tr).count e.order = 1 := by
   intro p hp hf e he hw
   have hall := rt_invAll es p hp
-  by_cases hfin : e.fin = false
-  · exact Or.inl (finAll_covers hf he hfin)
-  · have hft : e.fin = true := by simpa using hfin
-    rw [finAll_tr hf, finOrders_append, droppedOrders_append, skipOrders_append]
-    rcases hall.owed.owed e he hft hw with h | h | h | h
-    · exact Or.inl (List.mem_append_left _ h)
-    · refine Or.inr (Or.inl (List.mem_append_right _ ?_))
-      rw [droppedOrders_append, droppedOrders_droppedEvs]; exact List.mem_append_left _ h
-    · exact Or.inr (Or.inl (List.mem_append_left _ h))
-    · exact Or.inr (Or.inr (List.mem_append_left _ h))
-
-/-- Exactly once when no Go finaliser is pending at close: if nothing is queued in `pendingFinalize`
-and nothing was dropped or skipped before, every current marking that asked for finalisation appears
-EXACTLY once among the finalisations after `finAll`. -/
-theorem finalize_exactly_once_by_close_of_nothing_pending (es : List REv) :
-    ∀ p ∈ (GcRuntime.run es).pools, p.fatal = false → p.pf = [] → droppedOrders p.tr = [] → skipOrders p.tr = [] →
-      ∀ e ∈ regL p, wantsFin p.tr e.order = true → (finOrders (ClonePool.use p .finAll).tr).count e.order = 1 := by
-  intro p hp hf hpf hd hs e he hw
   have hnodup : (finOrders (ClonePool.use p .finAll).tr).Nodup := ((rt_inv es p hp).use .finAll).finNodup
   refine count_one_of_nodup_mem hnodup ?_
-  rcases finalize_exactly_once_by_close_partial es p hp hf e he hw with h | h | h
-  · exact h
-  · rw [finAll_tr hf, droppedOrders_append, hd, hpf] at h; simp [droppedEvs] at h
-    have : droppedOrders (finEvs Kind.af (afOut p)) = [] := by
-      induction (afOut p) with
-      | nil => rfl
-      | cons x t ih => simpa [finEvs, droppedOrders] using ih
-    rw [this] at h; cases h
-  · rw [finAll_tr hf, skipOrders_append, hs, hpf] at h
-    have : skipOrders (droppedEvs [] ++ finEvs Kind.af (afOut p)) = [] := by
-      induction (afOut p) with
-      | nil => rfl
-      | cons x t ih => simpa [finEvs, droppedEvs, skipOrders] using ih
-    rw [this] at h; cases h
+  by_cases hfin : e.fin = false
+  · exact finAll_covers hf he hfin
+  · have hft : e.fin = true := by simpa using hfin
+    rcases hall.owed.owed e he hft hw with h | h
+    · rw [finAll_tr hf, finOrders_append]; exact List.mem_append_left _ h
+    · exact finAll_covers_pending hf h
 
-example : ∃ p ∈ (GcRuntime.run [.prim (.mark a true false), .prim (.mark b true true)]).pools,
-    p.fatal = false ∧ p.pf = [] ∧ regL p ≠ [] ∧ wantsFin p.tr 2 = true := by
+/-- the witness of the defect repaired by 5fae9c3 (Go finaliser fired, then Close with no continuation
+step in between) now finalises: -/
+example : finOrders (GcRuntime.run [.prim (.mark a true false), .prim (.fire a), .close]).log = [1] := by decide
+
+example : ∃ p ∈ (GcRuntime.run [.prim (.mark a true false), .prim (.mark b true true), .prim (.fire a)]).pools,
+    p.fatal = false ∧ p.pf ≠ [] ∧ regL p ≠ [] ∧ wantsFin p.tr 1 = true ∧ wantsFin p.tr 2 = true := by
   refine ⟨_, List.mem_cons_self, ?_⟩; decide
+
+/-- The same at the end of an isolating CallContext that returns or raises a Lua error, stated on the
+runtime's log: in any reachable state with current pool `p`, `callDone` appends to the finalisations
+exactly what `ExtractAllMarkedFinalize` hands out, and every current marking of `p` that asked for
+finalisation is then in the log's finalisations of that pool exactly once (it was finalised before, or
+it is among what is handed out now). -/
+theorem finalize_exactly_once_by_context_end (es : List REv) (p : Pool) (rest : List Pool)
+    (hs : (GcRuntime.run es).live = p :: rest) (hf : (GcRuntime.run es).fatal = false) (hpf : p.fatal = false) :
+    finOrders (rstep (GcRuntime.run es) .callDone).log = finOrders (GcRuntime.run es).log ++ ords (afOut p) ∧
+    ∀ e ∈ regL p, wantsFin p.tr e.order = true →
+      (finOrders p.tr ++ ords (afOut p)).count e.order = 1 := by
+  refine ⟨callDone_log _ p rest hs hf hpf, ?_⟩
+  intro e he hw
+  have hp : p ∈ (GcRuntime.run es).pools := by unfold Rt.pools; rw [hs]; simp
+  have := finalize_exactly_once_by_close es p hp hpf e he hw
+  rwa [finAll_tr hpf, finOrders_append, finOrders_finEvs] at this
+
+example : finOrders (GcRuntime.run [.prim .push, .prim (.mark a true false), .prim (.fire a), .callDone, .close]).log = [1] := by
+  decide
 
 /-! ### release_exactly_once_after_finalize -/
 
@@ -142,7 +122,10 @@ theorem close_order_reverse_mark (us : List Use) :
     (markOrders (ClonePool.run us).tr).Pairwise (fun m n => m < n) := by
   have hi := Inv.run us
   refine ⟨?_, ?_, ?_, ?_, (InvAll.run us).owed.markAsc⟩ <;> rw [descB_iff]
-  · rw [afOut_eq]; exact sortDesc_strict _ (filter_ords_nodup hi.regAsc _)
+  · rw [afOut_eq]
+    refine sortDesc_strict _ ?_
+    have := afOut_nodup hi
+    rwa [afOut_eq, nodup_ords_sortDesc] at this
   · rw [arOut_eq]
     refine sortDesc_strict _ ?_
     unfold ords; rw [List.map_append]
@@ -157,14 +140,15 @@ example : ords (afOut (ClonePool.run [.mark a true false, .mark b true true, .ma
 
 /-! ### remark_resets_order -/
 
-/-- Re-marking a value (any object with its key) gives it the newest markOrder: its old register
-entry is gone, the new entry is among what close would finalise, and every other value that close
-would finalise has a smaller markOrder — so (by `close_order_reverse_mark`) it is finalised FIRST. -/
+/-- Re-marking a value (any object with its key) gives it the newest markOrder: the register then holds
+no other entry for that key, the new entry is among what close would finalise, and everything else that
+close would finalise has a strictly smaller markOrder — so (by `close_order_reverse_mark`) the re-marked
+value is finalised FIRST. -/
 theorem remark_resets_order (us : List Use) (o : Obj) (r : Bool)
     (hf : (ClonePool.run us).fatal = false) (hreg : (ClonePool.run us).reg ≠ none) :
-    (∃ e ∈ afOut (ClonePool.use (ClonePool.run us) (.mark o true r)), e.val.key = o.key ∧ e.order = (ClonePool.run us).last + 1) ∧
-    (∀ x ∈ afOut (ClonePool.use (ClonePool.run us) (.mark o true r)), x.val.key = o.key ∨ x.order < (ClonePool.run us).last + 1) ∧
-    (∀ x ∈ afOut (ClonePool.use (ClonePool.run us) (.mark o true r)), x.val.key = o.key → x.order = (ClonePool.run us).last + 1) := by
+    (∃ e ∈ afOut (ClonePool.use (ClonePool.run us) (.mark o true r)), e.val.key = o.key ∧ e.order = (ClonePool.run us).last + 1 ∧
+      ∀ x ∈ afOut (ClonePool.use (ClonePool.run us) (.mark o true r)), x = e ∨ x.order < (ClonePool.run us).last + 1) ∧
+    (∀ x ∈ regL (ClonePool.use (ClonePool.run us) (.mark o true r)), x.val.key = o.key → x.order = (ClonePool.run us).last + 1) := by
   have hi := Inv.run us
   generalize ClonePool.run us = p at *
   generalize hp' : ClonePool.use p (.mark o true r) = p'
@@ -173,28 +157,31 @@ theorem remark_resets_order (us : List Use) (o : Obj) (r : Bool)
     | none => exact absurd h hreg
     | some rg => exact ⟨rg, rfl⟩
   have hr : regL p = rg := regL_of_some hrg
-  -- the register after the mark
   have hregL : regL p' = regErase rg o.key ++
       [{ val := { key := o.key, id := p.last + 1, clone := true, pool := p.pid }, order := p.last + 1, fin := false, rel := !r }] := by
     rw [← hp', use_of_not_fatal hf]
     unfold ClonePool.mark regL
     simp [hrg]
-  have hmem : ∀ x, x ∈ afOut p' ↔ (x ∈ regErase rg o.key ∧ x.fin = false) ∨
+  have hpf : p'.pf = p.pf := by
+    rw [← hp', use_of_not_fatal hf]; exact (mark_ext p o true r).choose_spec.2.2.2
+  have hmem : ∀ x, x ∈ afOut p' ↔ x ∈ p.pf ∨ (x ∈ regErase rg o.key ∧ x.fin = false) ∨
       x = { val := { key := o.key, id := p.last + 1, clone := true, pool := p.pid }, order := p.last + 1, fin := false, rel := !r } := by
     intro x
-    rw [afOut_eq, mem_sortDesc, hregL, List.filter_append, List.mem_append, List.mem_filter]
+    rw [afOut_eq, mem_sortDesc, hregL, hpf, List.filter_append, List.mem_append, List.mem_append, List.mem_filter]
     simp
-  refine ⟨⟨_, (hmem _).mpr (Or.inr rfl), rfl, rfl⟩, ?_, ?_⟩
+  refine ⟨⟨_, (hmem _).mpr (Or.inr (Or.inr rfl)), rfl, rfl, ?_⟩, ?_⟩
   · intro x hx
-    rcases (hmem x).mp hx with ⟨h1, _⟩ | h1
+    rcases (hmem x).mp hx with h1 | ⟨h1, _⟩ | h1
+    · right; have := hi.pfLe x h1; omega
     · right
       have := hi.regLe x (hr ▸ (mem_regErase h1).1)
       omega
-    · left; rw [h1]
+    · left; exact h1
   · intro x hx hk
-    rcases (hmem x).mp hx with ⟨h1, _⟩ | h1
+    rw [hregL] at hx
+    rcases List.mem_append.mp hx with h1 | h1
     · exact absurd hk (mem_regErase h1).2
-    · rw [h1]
+    · rw [List.mem_singleton.mp h1]
 
 example : (ClonePool.run [.mark a true false, .mark b true false]).fatal = false ∧
     (ClonePool.run [.mark a true false, .mark b true false]).reg ≠ none ∧
